@@ -1,5 +1,359 @@
-import RSVerif.Basic
-/- C03: line-protocol driver (stub) -/
+import RSVerif.Model.Sender
+import RSVerif.Model.IncrParse
+import RSVerif.Spec.IncrSync
+import RSVerif.Spec.MiniRedis
+/-
+C03 (and, through `Drive.C04`, C04): line protocol of go/harness/c0304_common.go.
+
+  parse/send/pipe case line         -> the prediction of the deterministic model (canonical schedule: no
+                                       optional tick, one final idle tick); for `parse` followed by the
+                                       routing oracle ` #route=ok|bad`
+  judge<TAB>case<TAB>impl-line      -> `ok` or `reject:<why>`: is the recorded Send/Flush trace a run of the
+                                       nondeterministic automaton, and does the property's oracle hold on it
+-/
 namespace RSVerif.Drive.C03
-def handle (_line : String) : String := "unimplemented"
+open RSVerif RSVerif.Sync RSVerif.Sender RSVerif.IncrParse RSVerif.Spec.IncrSync RSVerif.Spec.MiniRedis
+open RSVerif.Generated
+
+/-! ### syntax -/
+
+def bytesToString (b : Bytes) : String := String.ofList (b.map (fun x => Char.ofNat x.toNat))
+def stringToBytes (s : String) : Bytes := s.toUTF8.toList
+
+def hexArg (s : String) : Option Bytes := ofHex s
+
+def parseArgsL (s : String) : Option (List Bytes) :=
+  if s == "" then some [] else (s.splitOn ",").mapM hexArg
+
+def fmtArgsL (a : List Bytes) : String := ",".intercalate (a.map hexOrDash)
+
+def kvLookup (s : String) (k : String) : Option String :=
+  ((s.splitOn ",").filterMap (fun p => match p.splitOn "=" with
+    | [a, b] => if a == k then some b else none
+    | _ => none)).head?
+
+def plusListS (s : String) : List String := if s == "-" || s == "" then [] else s.splitOn "+"
+
+structure PCfgT where
+  tdb : Int
+  fw : List Bytes
+  fb : List Bytes
+  lua : Bool
+  kw : List Bytes
+  kb : List Bytes
+
+def parsePcfg (s : String) : Option PCfgT := do
+  let tdb ← (← kvLookup s "tdb").toInt?
+  let fw := (plusListS (← kvLookup s "fw")).map stringToBytes
+  let fb := (plusListS (← kvLookup s "fb")).map stringToBytes
+  let lua := (← kvLookup s "lua") == "1"
+  let kw ← (plusListS (← kvLookup s "kw")).mapM ofHex
+  let kb ← (plusListS (← kvLookup s "kb")).mapM ofHex
+  pure { tdb, fw, fb, lua, kw, kb }
+
+/-- `filter.FilterDB` -/
+def filterDBInst (fw fb : List Bytes) (n : Int) : Bool :=
+  let s := fmtInt n
+  if !fb.isEmpty then fb.contains s
+  else if !fw.isEmpty then !(fw.contains s)
+  else false
+
+/-- `filter.FilterCommands` -/
+def filterCmdInst (lua : Bool) (c : String) : Bool :=
+  eqFold c "opinfo" || (lua && (eqFold c "eval" || eqFold c "script" || eqFold c "evalsha"))
+
+/-- `filter.FilterKey` -/
+def filterKeyInst (kw kb : List Bytes) (key : Bytes) : Bool :=
+  if SyncConsts.checkpointKeyBytes.isPrefixOf key then true
+  else if !kb.isEmpty then kb.any (fun p => p.isPrefixOf key)
+  else if !kw.isEmpty then !(kw.any (fun p => p.isPrefixOf key))
+  else false
+
+/-- rows `{nil, 1, 1, 1}` of `filter.RedisCommands` the generator uses under a key filter -/
+def singleKeyCmds : List String := ["set", "incr", "lpush", "hset", "sadd", "rpush"]
+
+/-- `filter.HandleFilterKeyWithCommand` restricted to single-key rows and to commands outside the table
+(the instance used by the differential run; the theorems take the key filter as a parameter, it is C13's) -/
+def keyFilterInst (kw kb : List Bytes) (cmd : String) (args : List Bytes) : List Bytes × Bool :=
+  if kw.isEmpty && kb.isEmpty then (args, false)
+  else if singleKeyCmds.contains cmd then
+    match args with
+    | [] => (args, false)
+    | k :: rest => if filterKeyInst kw kb k then (rest, true) else (args, false)
+  else (args, false)
+
+def PCfgT.toCfg (p : PCfgT) : PCfg :=
+  { targetDB := p.tdb, filterDB := filterDBInst p.fw p.fb, filterCmd := filterCmdInst p.lua,
+    keyFilter := keyFilterInst p.kw p.kb, d8fix := SyncConsts.selectKeepsLastDbUnderTargetDb }
+
+structure SCfgT where
+  cfg : Cfg
+  rc : RenderCfg
+
+def parseScfg (s : String) : Option SCfgT := do
+  let res := (← kvLookup s "res") == "1"
+  let cnt ← (← kvLookup s "cnt").toNat?
+  let size ← (← kvLookup s "size").toNat?
+  let src ← ofHex (← kvLookup s "src")
+  let rid ← ofHex (← kvLookup s "rid")
+  pure { cfg := { resume := res, senderCount := cnt, senderSize := size },
+         rc := { ckName := SyncConsts.checkpointKeyBytes, source := src, runId := rid } }
+
+/-- RESP length of a command: `*N\r\n` then `$len\r\n<bytes>\r\n` per element -/
+def respLen (name : Bytes) (args : List Bytes) : Nat :=
+  let bulk (b : Bytes) : Nat := 1 + (natDec b.length).length + 2 + b.length + 2
+  1 + (natDec (args.length + 1)).length + 2 + bulk name + (args.map bulk).sum
+
+/-- decode the `cmds` field: names lower-cased as `redis.ParseArgs` does, positions accumulated -/
+def parseCmds (s : String) : Option (List SrcCmd) :=
+  if s == "." then some [] else
+  let rec go (pos : Nat) : List String → Option (List SrcCmd)
+    | [] => some []
+    | t :: ts =>
+      match t.splitOn "/" with
+      | [nl, nm, as] => do
+        let nl ← nl.toNat?
+        let name ← ofHex nm
+        let args ← parseArgsL as
+        let pos' := pos + nl + respLen name args
+        let rest ← go pos' ts
+        pure ({ cmd := normName (bytesToString name), args := args, pos := pos' } :: rest)
+      | _ => none
+  go 0 (s.splitOn ";")
+
+def parseItems (s : String) : Option (List Item) :=
+  if s == "." then some [] else
+  (s.splitOn ";").mapM (fun t =>
+    match t.splitOn "/" with
+    | [nm, as, off, db] => do
+      let name ← ofHex nm
+      let args ← parseArgsL as
+      pure { cmd := bytesToString name, args := args, off := (← off.toInt?), db := (← db.toInt?) }
+    | _ => none)
+
+def fmtItem (it : Item) : String :=
+  s!"{hexOrDash (stringToBytes it.cmd)}/{fmtArgsL it.args}/{it.off}/{it.db}"
+
+def fmtItems (l : List Item) : String := if l.isEmpty then "." else ";".intercalate (l.map fmtItem)
+
+def fmtCmd (c : Cmd) : String := s!"{hexOrDash (stringToBytes c.1)}/{fmtArgsL c.2}"
+
+def fmtTrace (gs : List (List Cmd)) : String :=
+  if gs.isEmpty then "." else "|".intercalate (gs.map (fun g => ";".intercalate (g.map fmtCmd)))
+
+def parseTraceCmd (t : String) : Option Cmd :=
+  match t.splitOn "/" with
+  | [nm, as] => do
+    let name ← ofHex nm
+    let args ← parseArgsL as
+    pure (bytesToString name, args)
+  | _ => none
+
+/-- `trace=<g>|<g>… idle=<0|1>`; an unflushed tail (`~…`) makes the trace unparsable on purpose -/
+def parseTrace (s : String) : Option (List (List Cmd) × Bool) :=
+  match s.splitOn " " with
+  | [t, i] =>
+    if !t.startsWith "trace=" || !i.startsWith "idle=" then none else
+    let body := (t.drop 6).toString
+    let idle := (i.drop 5).toString == "1"
+    if body == "." then some ([], idle) else do
+      let gs ← (body.splitOn "|").mapM (fun g => (g.splitOn ";").mapM parseTraceCmd)
+      pure (gs, idle)
+  | _ => none
+
+/-! ### acceptance by the nondeterministic automaton -/
+
+def renderGroups (rc : RenderCfg) (gs : List Group) : List (List Cmd) := gs.map (fun g => renderWire rc g.wire)
+
+/-- Build, greedily, the event list that would explain the recorded groups: before each arrival a tick that
+found the queue empty is inserted exactly when the next recorded group is the flush of the current cache (if
+the arrival itself forces that flush the two explanations coincide); one such tick ends the list. -/
+def explain (cfg : Cfg) (rc : RenderCfg) : S → List Item → List (List Cmd) → List Ev
+  | _, [], _ => [.tick true]
+  | s, it :: rest, tr =>
+    let t := stepG cfg s (.tick true)
+    let tickFits := !t.2.isEmpty && tr.head? == (renderGroups rc t.2).head?
+    let (s1, tr1, pre) := if tickFits then (t.1, tr.drop t.2.length, [Ev.tick true]) else (s, tr, [])
+    let r := stepG cfg s1 (.recv it)
+    pre ++ (.recv it :: explain cfg rc r.1 rest (tr1.drop r.2.length))
+
+/-- the recorded trace is a run of the automaton on exactly these items that ends with an empty cache -/
+def accepts (cfg : Cfg) (rc : RenderCfg) (items : List Item) (tr : List (List Cmd)) : Bool :=
+  let evs := explain cfg rc S.init items tr
+  let r := runG cfg S.init evs
+  received evs == items && renderGroups rc r.2 == tr && r.1.cache.isEmpty
+
+/-- the canonical schedule: no optional tick, one final idle tick -/
+def canonical (cfg : Cfg) (rc : RenderCfg) (items : List Item) : List (List Cmd) :=
+  renderGroups rc (runG cfg S.init (items.map Ev.recv ++ [.tick true])).2
+
+/-! ### oracles evaluated on the implementation's answer -/
+
+def cmdOf (it : Item) : Cmd := (it.cmd, it.args)
+
+def plainItemB (ck : Bytes) (it : Item) : Bool :=
+  match classify ck (cmdOf it) with
+  | .select _ | .noop | .data => true
+  | _ => false
+
+def st0 : St Log := { data := [], ckpt := [], db := 0, q := none }
+
+def nonMarkers (items : List Item) : List Item := items.filter (fun it => !marker it)
+
+/-- the hypotheses under which the sender theorems promise anything about the target -/
+def senderHyps (ck : Bytes) (items : List Item) : Bool :=
+  decide (WF items) && (nonMarkers items).all (plainItemB ck)
+
+/-- `exactly_once_in_order` + routing at the sender level, on the recorded wire: the target (MiniRedis with
+the log dataset) ends outside a transaction having executed exactly the non-marker items, each once, in
+order, each in the database the plain replay of the stream selects. -/
+def onceOracle (ck : Bytes) (items : List Item) (tr : List (List Cmd)) : Bool :=
+  let fin := replay ck logApply st0 tr.flatten
+  fin.q.isNone && fin.data == (plain ck logApply st0 ((nonMarkers items).map cmdOf)).data
+
+/-- peel the tool's own `multi … [hset runid; hset version]; hset offset; exec` off a recorded group:
+(wrapped, forwarded commands, value of the offset field) -/
+def unwrapGroup (rc : RenderCfg) (g : List Cmd) : Option (Bool × List Cmd × Option Bytes) :=
+  match g with
+  | ("multi", []) :: rest =>
+    match rest.reverse with
+    | ("exec", []) :: ("hset", [k, f, v]) :: more =>
+      if k == rc.ckName && f == offsetField rc then
+        match more with
+        | ("hset", [k2, f2, _]) :: ("hset", [k3, f3, _]) :: more2 =>
+          if k2 == rc.ckName && f2 == versionField rc && k3 == rc.ckName && f3 == runIdField rc
+          then some (true, more2.reverse, some v) else some (true, more.reverse, some v)
+        | _ => some (true, more.reverse, some v)
+      else none
+    | _ => none
+  | _ => some (false, g, none)
+
+def lonePingB (chunk : List Item) : Bool :=
+  match chunk with
+  | [it] => it.cmd == "ping"
+  | _ => false
+
+/-- `batch_shape`/`select_only_first`/`markers_never_sent` evaluated on the recorded groups, without reference
+to the automaton or its barrier table: every group is non-empty, carries the next items of the history in order,
+is wrapped exactly when resume is on and it is not a lone ping, has `select` only as its first forwarded command,
+no source multi/exec, and stores the offset of its LAST command. -/
+def shapeOracle (cfg : Cfg) (rc : RenderCfg) : List Item → List (List Cmd) → Bool
+  | rem, [] => rem.isEmpty
+  | rem, g :: gs =>
+    match unwrapGroup rc g with
+    | none => false
+    | some (wrapped, body, off) =>
+      let chunk := rem.take body.length
+      !body.isEmpty && chunk.map cmdOf == body &&
+      wrapped == (cfg.resume && !lonePingB chunk) &&
+      body.tail.all (fun c => c.1 != "select") &&
+      body.all (fun c => c.1 != "multi" && c.1 != "exec") &&
+      (match off with
+       | some v => v == fmtInt (lastOff chunk)
+       | none => true) &&
+      shapeOracle cfg rc (rem.drop body.length) gs
+
+/-- `db_routing` on the recorded wire: the data commands the target executed, with their databases, are
+those the source stream intends -/
+def routeOracle (ck : Bytes) (pc : PCfg) (startDb : Int) (cmds : List SrcCmd) (executed : Log) : Bool :=
+  executed == (intended pc startDb false cmds).filter (fun e => classify ck e.2 == .data)
+
+/-- precondition of `db_routing` under a fixed `target.db`: the target connection reaches that database before
+any data command — the stream begins with a SELECT (what a master sends after a full sync) or the run was
+resumed in `target.db` -/
+def routePre (pc : PCfg) (startDb : Int) (cmds : List SrcCmd) : Bool :=
+  pc.targetDB == -1 || startDb == pc.targetDB ||
+  (match cmds with
+   | c :: _ => eqFold c.cmd "select"
+   | [] => true)
+
+/-- deviation D8 applies to this stream: `target.db = k` and the first SELECT of a non-filtered database selects `k`
+itself while the target connection is still in another database (pinned tree only) -/
+def d8Hit (pc : PCfg) (startDb : Int) : List SrcCmd → Bool
+  | [] => false
+  | c :: cs =>
+    if eqFold c.cmd "select" then
+      match c.args with
+      | [a] => match atoi a with
+        | some n => if pc.filterDB n then d8Hit pc startDb cs
+                    else !pc.d8fix && pc.targetDB != -1 && n == pc.targetDB && startDb != pc.targetDB
+        | none => false
+      | _ => false
+    else d8Hit pc startDb cs
+
+def parseModel (p : PCfgT) (startDb base : Int) (cmds : List SrcCmd) : List Item × Bool :=
+  parseFull p.toCfg startDb base cmds
+
+/-! ### the line handlers -/
+
+def predictParse (pc startDb base cmds : String) : String :=
+  match parsePcfg pc, startDb.toInt?, base.toInt?, parseCmds cmds with
+  | some p, some sd, some b, some cs =>
+    let (items, ab) := parseModel p sd b cs
+    let ck := SyncConsts.checkpointKeyBytes
+    -- routing oracle on what the parser emits, executed plainly (no abort, markers dropped as the sender does)
+    let route :=
+      if ab || !routePre p.toCfg sd cs then "na"
+      else if routeOracle ck p.toCfg sd cs (plain ck logApply st0 ((nonMarkers items).map cmdOf)).data then "ok"
+      else if d8Hit p.toCfg sd cs then "bad:d8" else "bad"
+    s!"items={fmtItems items} abort={if ab then 1 else 0} #route={route}"
+  | _, _, _, _ => "badcase"
+
+def predictSend (sc items : String) : String :=
+  match parseScfg sc, parseItems items with
+  | some s, some its => s!"trace={fmtTrace (canonical s.cfg s.rc its)} idle=1"
+  | _, _ => "badcase"
+
+def predictPipe (pc sc startDb base cmds : String) : String :=
+  match parsePcfg pc, parseScfg sc, startDb.toInt?, base.toInt?, parseCmds cmds with
+  | some p, some s, some sd, some b, some cs =>
+    let (items, ab) := parseModel p sd b cs
+    if ab then "badcase-abort" else s!"trace={fmtTrace (canonical s.cfg s.rc items)} idle=1"
+  | _, _, _, _, _ => "badcase"
+
+/-- the common part of a verdict: acceptance, then the C03 oracles -/
+def judgeTrace (s : SCfgT) (items : List Item) (route : Option (Log → Bool)) (impl : String)
+    (routeWhy : String := "reject:route") : String :=
+  match parseTrace impl with
+  | none => "reject:unflushed-or-unparsable-trace"
+  | some (tr, idle) =>
+    if !idle then "reject:not-flushed-when-idle"
+    else if !senderHyps s.rc.ckName items then
+      (if accepts s.cfg s.rc items tr then "ok" else "reject:not-a-run-of-the-automaton")
+    else if !onceOracle s.rc.ckName items tr then "reject:exactly-once"
+    else if !shapeOracle s.cfg s.rc (nonMarkers items) tr then "reject:batch-shape"
+    else
+      let r := match route with
+        | some f => if f (replay s.rc.ckName logApply st0 tr.flatten).data then "ok" else routeWhy
+        | none => "ok"
+      if r != "ok" then r
+      else if !accepts s.cfg s.rc items tr then "reject:not-a-run-of-the-automaton" else "ok"
+
+def judge (case impl : String) : String :=
+  match case.splitOn " " with
+  | ["send", sc, items, _gaps] =>
+    match parseScfg sc, parseItems items with
+    | some s, some its => judgeTrace s its none impl
+    | _, _ => "badcase"
+  | ["pipe", pc, sc, startDb, base, cmds, _gaps] =>
+    match parsePcfg pc, parseScfg sc, startDb.toInt?, base.toInt?, parseCmds cmds with
+    | some p, some s, some sd, some b, some cs =>
+      let (items, ab) := parseModel p sd b cs
+      if ab then "badcase-abort"
+      else judgeTrace s items
+        (if routePre p.toCfg sd cs then some (routeOracle s.rc.ckName p.toCfg sd cs) else none) impl
+        (if d8Hit p.toCfg sd cs then "reject:route:d8" else "reject:route")
+    | _, _, _, _, _ => "badcase"
+  | _ => "badcase"
+
+def handle (line : String) : String :=
+  match line.splitOn "\t" with
+  | ["judge", case, impl] => judge case impl
+  | _ =>
+    match line.splitOn " " with
+    | ["parse", pc, startDb, base, cmds] => predictParse pc startDb base cmds
+    | ["send", sc, items, _gaps] => predictSend sc items
+    | ["pipe", pc, sc, startDb, base, cmds, _gaps] => predictPipe pc sc startDb base cmds
+    | _ => "badcase"
+
 end RSVerif.Drive.C03
